@@ -59,6 +59,10 @@ NPQ_KERNELS = [
     dict(name="Net_max_axis", file="utils/__init__.py", cls=None, func="max_axis", params=[("array", "Q")], ret="Q", branching=True, matrix=True),
     dict(name="Net_softmax_numba", file="utils/__init__.py", cls=None, func="softmax_numba", params=[("X", "Q")], ret="Q", branching=True, matrix=True,
          calls_q={"max_axis": "Net_max_axis"}, expo=True),
+    # multiactivation2d (C12): which elementwise formula each activation code stands for (`np.exp`, `np.tanh` are the function parameters
+    # `expo`, `tanhf`; code 5 is the translated softmax kernel; any other code leaves `result` unbound - an error, `none`)
+    dict(name="Net_multiactivation2d", file="utils/__init__.py", cls=None, func="multiactivation2d", params=[("X", "Q"), ("activ_id", "N")], ret="Q", branching=True,
+         matrix=True, calls_q={"softmax_numba": "Net_softmax_numba expo"}, calls_q_kind={"softmax_numba": "Q"}, expo=True, tanhf=True),
     # SelfCGA._get_new_proba (C14): the probability table is read as the vector of its values in key order (kind DQ), the winning operator
     # as the position of its key (kind IDX)
     dict(name="SelfCGA_get_new_proba", file="optimizers/_selfcga.py", cls="SelfCGA", func="_get_new_proba",
@@ -463,6 +467,18 @@ class TrQ:
                 if k != "Q":
                     raise NotRecognised("exp operand")
                 return f"(NpQ.map expo {x})", "Q"
+            if isinstance(e, ast.UnaryOp) and isinstance(e.op, ast.USub) and self._kind(e.operand) == "Q":
+                return f"(NpQ.map (fun a => -a) {self.E(e.operand)[0]})", "Q"
+            if isinstance(e, ast.Call) and is_np(e.func, "tanh") and len(e.args) == 1 and not e.keywords and self.cfg.get("tanhf") and self._kind(e.args[0]) == "Q":
+                return f"(NpQ.map tanhf {self.E(e.args[0])[0]})", "Q"
+            # X * (X > 0): the rectifier
+            if isinstance(e, ast.BinOp) and isinstance(e.op, ast.Mult) and isinstance(e.left, ast.Name) and self.env.get(e.left.id) == "Q" \
+                    and isinstance(e.right, ast.Compare) and len(e.right.ops) == 1 and isinstance(e.right.ops[0], ast.Gt) \
+                    and isinstance(e.right.left, ast.Name) and e.right.left.id == e.left.id and is_const(e.right.comparators[0], 0):
+                return f"(NpQ.map (fun a => a * (if a > 0 then 1 else 0)) {e.left.id})", "Q"
+            # c / M
+            if isinstance(e, ast.BinOp) and isinstance(e.op, ast.Div) and self.lit(e.left) and self._kind(e.right) == "Q":
+                return f"(NpQ.map (fun a => {self.lit(e.left)} / a) {self.E(e.right)[0]})", "Q"
             # M - column (broadcast along the rows)
             if isinstance(e, ast.BinOp) and isinstance(e.op, ast.Sub) and self._kind(e.left) == "Q" and self._kind(e.right) == "QC":
                 return self.bind(f"NpQ.subCol {self.E(e.left)[0]} {self.E(e.right)[0]}"), "Q"
@@ -471,7 +487,7 @@ class TrQ:
                 x, k = self.E(e.args[0])
                 if k != "Q":
                     raise NotRecognised("callee operand")
-                return self.bind(f"{self.cfg['calls_q'][e.func.id]} {x}"), "QC"
+                return self.bind(f"{self.cfg['calls_q'][e.func.id]} {x}"), self.cfg.get("calls_q_kind", {}).get(e.func.id, "QC")
             # np.sum(M, axis=1)
             if isinstance(e, ast.Call) and is_np(e.func, "sum") and len(e.args) == 1 and [k.arg for k in e.keywords] == ["axis"] and is_const(e.keywords[0].value, 1) \
                     and self._kind(e.args[0]) == "Q":
@@ -731,6 +747,9 @@ class TrQM(TrQ):
             return f"{x}.length ≠ 0"
         if isinstance(t, ast.BoolOp) and isinstance(t.op, ast.Or):
             return " ∨ ".join(self.cond(v) for v in t.values)
+        if isinstance(t, ast.Compare) and len(t.ops) == 1 and isinstance(t.ops[0], ast.Eq) and isinstance(t.left, ast.Name) and self.env.get(t.left.id) == "N" \
+                and isinstance(t.comparators[0], ast.Constant) and isinstance(t.comparators[0].value, int):
+            return f"{t.left.id} = {t.comparators[0].value}"
         if isinstance(t, ast.Compare) and len(t.ops) == 1 and isinstance(t.ops[0], (ast.Gt, ast.Lt, ast.Eq, ast.LtE)):
             (a, ka), (b, kb) = self.E(t.left), self.E(t.comparators[0])
             if ka not in ("S", "S1") or kb not in ("S", "S1"):
@@ -740,6 +759,26 @@ class TrQM(TrQ):
         if k == "B":
             return f"{x} = true"
         raise NotRecognised("condition " + ast.unparse(t)[:40])
+
+    def assign_chain(self, st):
+        """`if c1: v = e1  elif c2: v = e2 ...` with NO final else and `v` not yet bound -> (v, [(c1, e1), ...]), else None"""
+        arms, cur, v = [], st, None
+        while isinstance(cur, ast.If):
+            if not (len(cur.body) == 1 and isinstance(cur.body[0], ast.Assign) and len(cur.body[0].targets) == 1 and isinstance(cur.body[0].targets[0], ast.Name)):
+                return None
+            name = cur.body[0].targets[0].id
+            if v is not None and name != v:
+                return None
+            v = name
+            arms.append((cur.test, cur.body[0].value))
+            if not cur.orelse:
+                break
+            if len(cur.orelse) != 1 or not isinstance(cur.orelse[0], ast.If):
+                return None
+            cur = cur.orelse[0]
+        if v is None or v in self.declared or len(arms) < 2:
+            return None
+        return v, arms
 
     def block(self, stmts, ind):
         for st in stmts:
@@ -829,6 +868,26 @@ class TrQM(TrQ):
                 # `if p is None: ... else: ...` for a parameter whose None-ness is fixed by this entry: only that branch is translated
                 self.block(st.body if self.cfg["none_params"][st.test.left.id] else st.orelse, ind)
                 continue
+            chain = self.assign_chain(st)
+            if chain is not None:
+                v, arms = chain
+                self.lines.append(f"{ind}let mut {v} ← (do")
+                depth = ind + "  "
+                kind = None
+                for test, val in arms:
+                    self.lines.append(f"{depth}if {self.cond(test)} then")
+                    self.ind = depth + "  "
+                    x, k = self.E(val)
+                    kind = kind or k
+                    if k != kind:
+                        raise NotRecognised("branches of different kinds")
+                    self.lines.append(f"{depth}  return {x}")
+                    self.lines.append(f"{depth}else")
+                    depth += "  "
+                self.lines.append(f"{depth}none)")
+                self.declared.add(v)
+                self.env[v] = kind
+                continue
             if isinstance(st, ast.If):
                 c = self.cond(st.test)
                 self.lines.append(f"{ind}if {c} then")
@@ -869,6 +928,8 @@ class TrQM(TrQ):
             fnp.append("(sampler : List Rat → Nat → Bool → List Nat)")
         if cfg.get("expo"):
             fnp.append("(expo : Rat → Rat)")
+        if cfg.get("tanhf"):
+            fnp.append("(tanhf : Rat → Rat)")
         params = fnp + [f"(self{a} : {lean_k[k_]})" for a, k_ in cfg.get("self_attrs", [])] + [f"({p} : {lean_k[k_]})" for p, k_ in plist]
         loop_txt = ""
         if self.loop_def is not None:
@@ -879,7 +940,7 @@ class TrQM(TrQ):
             self.lines = [l.replace("LOOPARGS", names) for l in self.lines]
             params = params + ["(fuel : Nat)"]
         return ("/- GENERATED by harness/extract/np2lean.py from src/thefittest/" + cfg["file"] + f" ({(cfg['cls'] + '.') if cfg['cls'] else ''}{cfg['func']}) — do not edit -/\n"
-                + "import TFV.Model.NpQ\n" + "".join(f"import TFV.Generated.Src.{v}\n" for v in cfg.get("calls_q", {}).values()) + "namespace TFV.Generated.Src\nopen TFV\n\n" + loop_txt
+                + "import TFV.Model.NpQ\n" + "".join(f"import TFV.Generated.Src.{v.split()[0]}\n" for v in cfg.get("calls_q", {}).values()) + "namespace TFV.Generated.Src\nopen TFV\n\n" + loop_txt
                 + f"def {cfg['name']} " + " ".join(params) + f" : Option {'(List Rat)' if cfg['ret'] == 'VQ' else '(List Nat)' if cfg['ret'] == 'VN' else 'NpQ.Mat' if cfg['ret'] == 'Q' else 'Rat'} := do\n" + "\n".join(self.lines) + "\n\nend TFV.Generated.Src\n")
 
 
